@@ -107,7 +107,7 @@ def write_string(o, s, pos, force):
             o.receipts.append(("multi", s, s, o.line, o.col))
             o.w(s)                                   # multi-word bare value
             return
-        if s and "\r" not in s and o.flip(0.3):
+        if "\r" not in s and o.flip(0.3):      # (the empty string too: six quotes)
             # triple quotes take the same escapes as single quotes (the body is the escaped text)
             o.receipts.append(("norm", '"""', s, o.line, o.col))
             body = esc
